@@ -45,9 +45,10 @@ def _rows(store) -> List[bytes]:
     return [r[0] for r in store.sql("select block_hash from chain")]
 
 
-def delivery(kind: int, conflict: bool = False, twin: bool = False, real: bool = False):
-    """conflict: the delivered block's spend uses the same output as the pending transaction in the pool."""
-    W = World(real=real, networking=True, served_head="P", lro=True)
+def delivery(kind: int, conflict: bool = False, served_head: str = "P", twin: bool = False, real: bool = False):
+    """conflict: the delivered block's spend uses the same output as the pending transaction in the pool.
+    served_head: "F" = the sibling fork is the served head when the block (built on P) arrives."""
+    W = World(real=real, networking=True, served_head=served_head, lro=True)
     from symlib import nodeshell as ns
     dt, cons = W.dt, W.cons
     import skepticoin.blockstore as bs
@@ -212,6 +213,21 @@ def delivery(kind: int, conflict: bool = False, twin: bool = False, real: bool =
                 pass
             if cm.coinstate is not st1 or _rows(store) != rows1 or len(sent) != nsent or len(store.write_buffer) != 0:
                 return False
+            # -- an invalid block arriving next must not undo what was accepted before ----------------------------
+            if should_accept:
+                cbq = W.env.coinbase(W.h, [dt.Output(3 * 10 ** 9, W.keys[3])], None, data=b"q")       # reward too high
+                bad2 = W.candidate(cm.coinstate, [cbq], ts2, bid=tok(BLK, 8), nonce=4)
+                if not real:
+                    W.sha256d.preset((cbq.serialize(),), cbq.hash())
+                st_before_bad = cm.coinstate
+                try:
+                    other.handle_block_received(hdr, ms.DataMessage(ms.DATA_BLOCK, bad2))
+                except Exception:
+                    pass
+                if bad2.hash() in cm.coinstate.block_by_hash or blk.hash() not in cm.coinstate.block_by_hash:
+                    return False
+                if cm.coinstate is not st_before_bad or bad2.hash() in _rows(store):
+                    return False
             # -- a later valid block is accepted and stored --------------------------------------------------
             cb2 = W.env.coinbase(W.h, [dt.Output(1, W.keys[3])], None, data=b"z")
             nxt = W.candidate(cm.coinstate, [cb2], ts2, bid=tok(BLK, 7), nonce=3)
@@ -259,6 +275,13 @@ def obligations(tier: str, known: List[str]) -> List[Ob]:
                     "stated-height-without-ancestors", "bad-merkle"):
             obs.append(Ob("delivery[%s,spends-the-pending-transaction's-input]" % name, clause + "; " + C_LATER, "delivery",
                           {"kind": k, "conflict": True}, timeout=T))
+    if tier == "thorough":
+        for k, name in enumerate(KINDS):
+            if name in ("duplicate",):
+                continue
+            clause = C_IN if name.startswith("valid") else C_OUT
+            obs.append(Ob("delivery[%s,served-head=sibling-fork]" % name, clause + "; " + C_LATER, "delivery",
+                          {"kind": k, "served_head": "F"}, timeout=T))
     obs.append(twin_of(obs[0], timeout=300))
     obs.append(twin_of([o for o in obs if o.name == "delivery[wrong-signature]"][0], timeout=300))
     return obs
